@@ -1236,6 +1236,8 @@ class BinaryOpUGen(BasicOpUGen):
 
     def _optimize_sub(self):
         a, b = self.inputs
+        if a is b:
+            return None
 
         if isinstance(b, UnaryOpUGen) and b.operator == 'neg'\
         and len(b._descendants) == 1:
